@@ -48,6 +48,7 @@ VARIABLES
   rmv,       \* trials the scheduler declared "can never be resumed"
   nstart,    \* number of trials started
   nhand,     \* number of results the backend handed to the loop
+  mst,       \* statistics of the handed results: [min, max |-> metric value, cost |-> [Trials -> largest cost reported]]
   stopHeld,  \* stopping criterion (or failure limit) was observed TRUE
   exh,       \* scheduler answered "nothing left"
   phase,     \* "loop" | "fin" | "done"
@@ -62,7 +63,7 @@ VARIABLES
   pst        \* trials the scheduler marked as stopped (PBTTrialState.stopped)
 
 envV  == <<wst, em, ext>>
-monV  == <<dl, life, dec, ps, ck, rmv, nstart, nhand, stopHeld, exh, phase, dead, xf, cq, flags>>
+monV  == <<dl, life, dec, ps, ck, rmv, nstart, nhand, mst, stopHeld, exh, phase, dead, xf, cq, flags>>
 progV == <<pc, running, seen, batch, snap, done, sstop, lsr, tss, stopReached, exhausted, todoN, cur, todo, exc, stack, pst>>
 vars  == <<cf, envV, monV, progV>>
 
@@ -97,7 +98,7 @@ W_Emit(t) ==
   /\ cf.r3 => pc \notin {"stop", "pause"}                \* environment restriction excluding known finding F03
   /\ em' = [em EXCEPT ![t][CurRun(t)] = @ + 1]
   /\ ck' = [ck EXCEPT ![t] = "present"]      \* the script checkpoints at every report
-  /\ UNCHANGED <<wst, ext, dl, life, dec, ps, rmv, nstart, nhand, stopHeld, exh, phase, dead, xf, cq, flags>>
+  /\ UNCHANGED <<wst, ext, dl, life, dec, ps, rmv, nstart, nhand, mst, stopHeld, exh, phase, dead, xf, cq, flags>>
 
 W_Exit(t) ==
   /\ wst[t] = "busy" /\ (em[t][CurRun(t)] > 0 \/ cf.emptyexit)
@@ -120,9 +121,17 @@ W_ExtStop(t) ==
 
 \* backend.fetch_status_results returned n new results; D = polled trials it reported as Failed, or as Stopped
 \* although the scheduler never stopped them
-EvFetch(n, D) ==
+\* V = the handed results as <<trial, metric value, cost>> (empty where the campaign does not use value criteria)
+NoMin == 1000
+NoMax == -1000
+MinOfSeq(q, d) == LET F[j \in 0..Len(q)] == IF j = 0 THEN d ELSE IF q[j] < F[j-1] THEN q[j] ELSE F[j-1] IN F[Len(q)]
+MaxOfSeq(q, d) == LET F[j \in 0..Len(q)] == IF j = 0 THEN d ELSE IF q[j] > F[j-1] THEN q[j] ELSE F[j-1] IN F[Len(q)]
+EvFetch(n, D, V) ==
   /\ nhand' = nhand + n
   /\ dead' = dead \cup D
+  /\ mst' = [min  |-> MinOfSeq([j \in 1..Len(V) |-> V[j][2]], mst.min),
+             max  |-> MaxOfSeq([j \in 1..Len(V) |-> V[j][2]], mst.max),
+             cost |-> [t \in Trials |-> MaxOfSeq([j \in 1..Len(V) |-> IF V[j][1] = t THEN V[j][3] ELSE 0], mst.cost[t])]]
   \* a run that exited on its own before this poll and is registered as running: this poll has to see it
   /\ xf' = xf \cup {t \in Trials : wst[t] = "ok" /\ life[t] = "running"}
   /\ UNCHANGED <<envV, dl, life, dec, ps, ck, rmv, nstart, stopHeld, exh, phase, cq, flags>>
@@ -144,7 +153,7 @@ EvResult(t, r, i, d) ==
        \cup Flag(phase # "loop", "result_after_end")
   /\ dl'  = IF r = c /\ r >= 1 THEN [dl EXCEPT ![t][r] = i] ELSE dl
   /\ dec' = IF d \in {"STOP", "PAUSE"} THEN [dec EXCEPT ![t] = d] ELSE dec
-  /\ UNCHANGED <<envV, life, ps, ck, rmv, nstart, nhand, stopHeld, exh, phase, dead, xf, cq>>
+  /\ UNCHANGED <<envV, life, ps, ck, rmv, nstart, nhand, mst, stopHeld, exh, phase, dead, xf, cq>>
 
 \* backend.stop_trial(t) / backend.pause_trial(t): immediate kill
 EvStopTrial(t) ==
@@ -152,28 +161,28 @@ EvStopTrial(t) ==
                     \cup Flag(dec[t] # "STOP" /\ phase = "loop", "stop_without_decision")
   /\ wst'  = [wst EXCEPT ![t] = IF @ = "busy" THEN "killed" ELSE @]
   /\ life' = [life EXCEPT ![t] = "stopped"]
-  /\ UNCHANGED <<em, ext, dl, dec, ps, ck, rmv, nstart, nhand, stopHeld, exh, phase, dead, xf, cq>>
+  /\ UNCHANGED <<em, ext, dl, dec, ps, ck, rmv, nstart, nhand, mst, stopHeld, exh, phase, dead, xf, cq>>
 
 EvPauseTrial(t) ==
   /\ flags' = flags \cup Flag(life[t] # "running", "pause_not_running")
                     \cup Flag(dec[t] # "PAUSE", "pause_without_decision")
   /\ wst'  = [wst EXCEPT ![t] = IF @ = "busy" THEN "killed" ELSE @]
   /\ life' = [life EXCEPT ![t] = "paused"]
-  /\ UNCHANGED <<em, ext, dl, dec, ps, ck, rmv, nstart, nhand, stopHeld, exh, phase, dead, xf, cq>>
+  /\ UNCHANGED <<em, ext, dl, dec, ps, ck, rmv, nstart, nhand, mst, stopHeld, exh, phase, dead, xf, cq>>
 
 \* scheduler.on_trial_remove / on_trial_complete / on_trial_error
 EvRemove(t) ==
   /\ flags' = flags \cup Flag(ps[t] # "live", "protocol_remove")
                     \cup Flag(dec[t] = "none", "remove_without_decision")
   /\ ps' = [ps EXCEPT ![t] = "removed"]
-  /\ UNCHANGED <<envV, dl, life, dec, ck, rmv, nstart, nhand, stopHeld, exh, phase, dead, xf, cq>>
+  /\ UNCHANGED <<envV, dl, life, dec, ck, rmv, nstart, nhand, mst, stopHeld, exh, phase, dead, xf, cq>>
 
 EvComplete(t) ==
   /\ flags' = flags \cup Flag(ps[t] # "live", "protocol_complete")
                     \cup Flag(wst[t] # "ok", "complete_not_exited")
                     \cup Flag(CurRun(t) >= 1 /\ dl[t][CurRun(t)] < em[t][CurRun(t)], "complete_missing")  \* C02
   /\ ps' = [ps EXCEPT ![t] = "completed"]
-  /\ UNCHANGED <<envV, dl, life, dec, ck, rmv, nstart, nhand, stopHeld, exh, phase, dead, xf, cq>>
+  /\ UNCHANGED <<envV, dl, life, dec, ck, rmv, nstart, nhand, mst, stopHeld, exh, phase, dead, xf, cq>>
 
 EvError(t) ==
   /\ flags' = flags \cup Flag(ps[t] = "removed", "error_after_remove")       \* C01: second end-of-run notification
@@ -182,13 +191,13 @@ EvError(t) ==
   /\ ps' = [ps EXCEPT ![t] = "errored"]
   \* an observed crash is registered as failed whatever was decided before
   /\ life' = [life EXCEPT ![t] = IF wst[t] = "fail" THEN "failed" ELSE IF @ = "running" THEN "stopped" ELSE @]
-  /\ UNCHANGED <<envV, dl, dec, ck, rmv, nstart, nhand, stopHeld, exh, phase, dead, xf, cq>>
+  /\ UNCHANGED <<envV, dl, dec, ck, rmv, nstart, nhand, mst, stopHeld, exh, phase, dead, xf, cq>>
 
 \* TunerCallback.on_trial_complete: the loop registered t as completed
 EvCbComplete(t) ==
   /\ flags' = flags \cup Flag(wst[t] # "ok", "complete_not_exited")
   /\ life' = [life EXCEPT ![t] = IF @ = "running" THEN "completed" ELSE @]
-  /\ UNCHANGED <<envV, dl, dec, ps, ck, rmv, nstart, nhand, stopHeld, exh, phase, dead, xf, cq>>
+  /\ UNCHANGED <<envV, dl, dec, ps, ck, rmv, nstart, nhand, mst, stopHeld, exh, phase, dead, xf, cq>>
 
 \* backend.start_trial(config, checkpoint_trial_id = from) returned trial t
 EvStart(t, from) ==
@@ -211,18 +220,18 @@ EvStart(t, from) ==
   /\ nstart' = nstart + 1
   /\ cq' = IF from \in Trials /\ cq[from] > 0 THEN [cq EXCEPT ![from] = @ - 1] ELSE cq
   /\ xf' = xf \ {t}
-  /\ UNCHANGED <<ext, dec, ps, rmv, nhand, stopHeld, exh, phase, dead>>
+  /\ UNCHANGED <<ext, dec, ps, rmv, nhand, mst, stopHeld, exh, phase, dead>>
 
 EvAdd(t) ==
   /\ flags' = flags \cup Flag(ps[t] # "new" \/ life[t] # "running", "protocol_add")
   /\ ps' = [ps EXCEPT ![t] = "live"]
-  /\ UNCHANGED <<envV, dl, life, dec, ck, rmv, nstart, nhand, stopHeld, exh, phase, dead, xf, cq>>
+  /\ UNCHANGED <<envV, dl, life, dec, ck, rmv, nstart, nhand, mst, stopHeld, exh, phase, dead, xf, cq>>
 
 \* the scheduler queued "start a new trial from the checkpoint of s" for a later suggest()
 \* (PopulationBasedTraining._trial_decisions_stack.append, inside on_trial_result)
 EvQueue(s) ==
   /\ cq' = IF s \in Trials /\ ck[s] = "present" THEN [cq EXCEPT ![s] = @ + 1] ELSE cq
-  /\ UNCHANGED <<envV, dl, life, dec, ps, ck, rmv, nstart, nhand, stopHeld, exh, phase, dead, xf, flags>>
+  /\ UNCHANGED <<envV, dl, life, dec, ps, ck, rmv, nstart, nhand, mst, stopHeld, exh, phase, dead, xf, flags>>
 
 \* backend.resume_trial(t)
 EvResume(t) ==
@@ -242,7 +251,7 @@ EvResume(t) ==
   /\ life' = [life EXCEPT ![t] = "running"]
   /\ ps'  = [ps EXCEPT ![t] = "live"]
   /\ xf' = xf \ {t}
-  /\ UNCHANGED <<ext, ck, rmv, nstart, nhand, stopHeld, exh, phase, dead, cq>>
+  /\ UNCHANGED <<ext, ck, rmv, nstart, nhand, mst, stopHeld, exh, phase, dead, cq>>
 
 \* backend.delete_checkpoint(t)
 EvDelete(t) ==
@@ -250,17 +259,17 @@ EvDelete(t) ==
                                  \/ phase # "loop"
                                  \/ (life[t] = "paused" /\ (t \in rmv \/ cf.spec)) ), "delete_live")   \* C20
   /\ ck' = [ck EXCEPT ![t] = IF @ = "none" THEN "none" ELSE "deleted"]
-  /\ UNCHANGED <<envV, dl, life, dec, ps, rmv, nstart, nhand, stopHeld, exh, phase, dead, xf, cq>>
+  /\ UNCHANGED <<envV, dl, life, dec, ps, rmv, nstart, nhand, mst, stopHeld, exh, phase, dead, xf, cq>>
 
 \* the scheduler declares S as never-resumable (trials_checkpoints_can_be_removed)
 EvRemovable(S) ==
   /\ rmv' = rmv \cup S
-  /\ UNCHANGED <<envV, dl, life, dec, ps, ck, nstart, nhand, stopHeld, exh, phase, dead, xf, cq, flags>>
+  /\ UNCHANGED <<envV, dl, life, dec, ps, ck, nstart, nhand, mst, stopHeld, exh, phase, dead, xf, cq, flags>>
 
 \* scheduler.suggest returned None
 EvExhausted ==
   /\ exh' = TRUE
-  /\ UNCHANGED <<envV, dl, life, dec, ps, ck, rmv, nstart, nhand, stopHeld, phase, dead, xf, cq, flags>>
+  /\ UNCHANGED <<envV, dl, life, dec, ps, ck, rmv, nstart, nhand, mst, stopHeld, phase, dead, xf, cq, flags>>
 
 \* counters the monitor derives from the events
 MonFailed   == NumLife({"failed"})
@@ -269,6 +278,9 @@ MonCritHolds ==
     [] cf.ckind = "completed" -> NumLife({"completed"}) > cf.k
     [] cf.ckind = "finished"  -> NumLife({"completed", "stopped", "failed"}) > cf.k
     [] cf.ckind = "evals"     -> nhand > cf.k
+    [] cf.ckind = "minmetric" -> mst.min < cf.k          \* some handed evaluation below the threshold
+    [] cf.ckind = "maxmetric" -> mst.max > cf.k
+    [] cf.ckind = "cost"      -> SumSeq([j \in 1..NT |-> mst.cost[j-1]]) > cf.k
     [] OTHER                  -> FALSE
 \* Tuner._stop_condition() evaluated to b at the end of an iteration
 EvStopCrit(b) ==
@@ -281,12 +293,12 @@ EvStopCrit(b) ==
                     \* it registered as running (its last reports and its end were never passed on)
                     \cup Flag(\E t \in xf : life[t] = "running", "completed_unregistered")
   /\ stopHeld' = (stopHeld \/ b)
-  /\ UNCHANGED <<envV, dl, life, dec, ps, ck, rmv, nstart, nhand, exh, phase, dead, xf, cq>>
+  /\ UNCHANGED <<envV, dl, life, dec, ps, ck, rmv, nstart, nhand, mst, exh, phase, dead, xf, cq>>
 
 \* on_loop_start: a new iteration begins
 EvIter ==
   /\ flags' = flags \cup Flag(stopHeld /\ ~(cf.wait /\ NumLife({"running"}) > 0), "loop_after_stop")   \* C12
-  /\ UNCHANGED <<envV, dl, life, dec, ps, ck, rmv, nstart, nhand, stopHeld, exh, phase, dead, xf, cq>>
+  /\ UNCHANGED <<envV, dl, life, dec, ps, ck, rmv, nstart, nhand, mst, stopHeld, exh, phase, dead, xf, cq>>
 
 \* backend.stop_all(): S = trials it stopped
 EvStopAll(S) ==
@@ -294,7 +306,7 @@ EvStopAll(S) ==
   \* from the tuner's point of view everything it believed running is now stopped
   /\ life' = [t \in Trials |-> IF life[t] = "running" THEN "stopped" ELSE life[t]]
   /\ phase' = "fin"
-  /\ UNCHANGED <<em, ext, dl, dec, ps, ck, rmv, nstart, nhand, stopHeld, exh, dead, xf, cq, flags>>
+  /\ UNCHANGED <<em, ext, dl, dec, ps, ck, rmv, nstart, nhand, mst, stopHeld, exh, dead, xf, cq, flags>>
 
 \* run() returned (kind = "normal") or raised (kind = "failure": named = trial in the message;
 \* kind = "nometrics": a trial completed without reporting; "other")
@@ -315,7 +327,7 @@ EvEnd(kind, named, cnt) ==
        \cup Flag(kind \in {"normal", "failure"} /\ cnt # <<>> /\ cnt # <<nstart, NumLife({"completed"}), NumLife({"failed"}),
                                       NumLife({"completed", "stopped", "failed"})>>, "counters")   \* C12
   /\ phase' = "done"
-  /\ UNCHANGED <<envV, dl, life, dec, ps, ck, rmv, nstart, nhand, stopHeld, exh, dead, xf, cq>>
+  /\ UNCHANGED <<envV, dl, life, dec, ps, ck, rmv, nstart, nhand, mst, stopHeld, exh, dead, xf, cq>>
 
 ----------------------------------------------------------------------------
 (* The properties, as invariants over the monitor *)
@@ -359,6 +371,7 @@ InitCommon(c) ==
   /\ dl = [t \in Trials |-> <<>>] /\ life = [t \in Trials |-> "none"]
   /\ dec = [t \in Trials |-> "none"] /\ ps = [t \in Trials |-> "new"]
   /\ ck = [t \in Trials |-> "none"] /\ rmv = {} /\ nstart = 0 /\ nhand = 0
+  /\ mst = [min |-> NoMin, max |-> NoMax, cost |-> [t \in Trials |-> 0]]
   /\ stopHeld = FALSE /\ exh = FALSE /\ phase = "loop" /\ dead = {} /\ flags = {}
   /\ cq = [t \in Trials |-> 0] /\ xf = {} /\ stack = <<>> /\ pst = {}
   /\ pc = "stopcond0" /\ running = {} /\ seen = [t \in Trials |-> 0]
@@ -375,6 +388,10 @@ ImplCrit ==
     [] cf.ckind = "completed" -> TssCount({"Completed"}) > cf.k
     [] cf.ckind = "finished"  -> TssCount({"Completed", "Stopped", "Stopping", "Failed"}) > cf.k
     [] cf.ckind = "evals"     -> nhand > cf.k
+    \* TuningStatus.overall_metric_statistics / trial_metric_statistics are updated from the handed results
+    [] cf.ckind = "minmetric" -> mst.min < cf.k
+    [] cf.ckind = "maxmetric" -> mst.max > cf.k
+    [] cf.ckind = "cost"      -> SumSeq([j \in 1..NT |-> mst.cost[j-1]]) > cf.k
     [] OTHER                  -> FALSE
 ImplStopCondition == ImplCrit \/ TssCount({"Failed"}) > cf.maxfail
 
@@ -400,6 +417,14 @@ T_LoopCheck ==
 \* metrics[seen:] unless the status is Paused/Stopping/Stopped (then hidden, seen NOT advanced)
 FetchNew(t) ==
   IF Tot(t) > 0 /\ BackendStatus(t) \notin {"Paused", "Stopping", "Stopped"} THEN <<seen[t], Tot(t)>> ELSE <<0, 0>>
+\* the scripted worker's report p (position in the stream of trial t, report i of run r) carries
+\* metric value (7 t + 3 r + 5 i) % 11 and cumulative cost (t + 1) p
+Val(t, r, i) == (7 * t + 3 * r + 5 * i) % 11
+TrialValues(t) == IF t \in running
+                    THEN [p \in 1..(FetchNew(t)[2] - FetchNew(t)[1]) |->
+                            LET ri == PosRunIdx(em[t], FetchNew(t)[1] + p) IN <<t, Val(t, ri[1], ri[2]), (t + 1) * (FetchNew(t)[1] + p)>>]
+                    ELSE <<>>
+HandedValues == LET F[j \in 0..NT] == IF j = 0 THEN <<>> ELSE F[j-1] \o TrialValues(j-1) IN F[NT]
 T_Fetch ==
   /\ pc = "fetch"
   /\ batch' = [t \in Trials |-> IF t \in running THEN FetchNew(t) ELSE <<0, 0>>]
@@ -407,7 +432,8 @@ T_Fetch ==
   /\ snap'  = [t \in Trials |-> IF t \in running THEN BackendStatus(t) ELSE "none"]
   /\ done'  = [t \in Trials |-> "none"]
   /\ EvFetch(SumSeq([i \in 1..NT |-> IF (i-1) \in running THEN FetchNew(i-1)[2] - FetchNew(i-1)[1] ELSE 0]),
-             {t \in running : BackendStatus(t) = "Failed" \/ (BackendStatus(t) = "Stopped" /\ t \in ext)})
+             {t \in running : BackendStatus(t) = "Failed" \/ (BackendStatus(t) = "Stopped" /\ t \in ext)},
+             HandedValues)
   /\ pc' = "results"
   /\ UNCHANGED <<cf, running, sstop, lsr, tss, stopReached, exhausted, todoN, cur, todo, exc, stack, pst>>
 
